@@ -163,6 +163,13 @@ def _claimed_modules() -> list[str]:
         return []
 
 
+def _olean_exists(target: str) -> bool:
+    """a module target (dotted name) has its compiled file; other targets (the executable) are checked separately"""
+    if target == "psdriver":
+        return os.path.exists(DRIVER)
+    return os.path.exists(os.path.join(LEAN_DIR, ".lake", "build", "lib", "lean", *target.split(".")) + ".olean")
+
+
 def ensure_built(targets=None) -> float:
     """`lake build` of the driver and of every module a registered theorem lives in (a no-op when up to date; the
     setup command builds the whole library). Failure is an infrastructure error, never a verdict."""
@@ -170,8 +177,9 @@ def ensure_built(targets=None) -> float:
     if targets is None:
         targets = ["psdriver", *_claimed_modules()]
     with _flock("lake"):
-        stamp = os.path.join(CACHE, "built-" + lean_hash()[:24])
-        if os.path.exists(stamp) and os.path.exists(DRIVER):
+        key = hashlib.sha256((lean_hash() + "|" + " ".join(sorted(targets))).encode()).hexdigest()[:24]
+        stamp = os.path.join(CACHE, "built-" + key)
+        if os.path.exists(stamp) and os.path.exists(DRIVER) and all(_olean_exists(t) for t in targets):
             return 0.0
         r = subprocess.run(["lake", "build", *targets], cwd=LEAN_DIR, capture_output=True, text=True)
         if r.returncode != 0 or not os.path.exists(DRIVER):
